@@ -421,3 +421,34 @@ def run_and_judge(rep, cases, model_every=1, rust=('checked', 'fast')):
             if rep.dist[c['tag']] == 1:
                 rep.sample(f"[{c['tag']}] {c['line']} -> {outs['rust_' + rust[0]][i]}", limit=10)
     return outs
+
+
+# ------------------------------------------------------------------------------------------- trace build (C14)
+TRACE = os.path.join(HARNESS, 'target-trace', 'trace', 'trace_exec')
+SANCOV = ("-Cpasses=sancov-module -Cllvm-args=-sanitizer-coverage-level=3 -Cllvm-args=-sanitizer-coverage-trace-pc-guard "
+          "-Cllvm-args=-sanitizer-coverage-trace-loads -Cllvm-args=-sanitizer-coverage-trace-stores -Ccodegen-units=1")
+
+
+def trace_build():
+    """optimised build of trace_exec with sanitizer-coverage instrumentation on *every* crate (DESIGN 4.5)"""
+    os.makedirs(WORK, exist_ok=True)
+    cb = os.path.join(WORK, 'cb.o')
+    rc, out, err = sh(['clang', '-O2', '-c', os.path.join(HARNESS, 'trace', 'cb.c'), '-o', cb])
+    if rc != 0:
+        return 'clang: ' + (out + err)[-1500:]
+    env = dict(ENV, RUSTFLAGS=f"{SANCOV} -Clink-arg={cb}")
+    r = subprocess.run(['cargo', 'build', '--profile', 'trace', '--features', 'trace', '--bin', 'trace_exec', '--target-dir', 'target-trace'],
+                       cwd=HARNESS, capture_output=True, text=True, env=env, timeout=1800)
+    return None if r.returncode == 0 else (r.stdout + r.stderr)[-3000:]
+
+
+def trace_run(lines, timeout=1800):
+    """all lines in ONE process (addresses comparable); returns list of dicts edges/ehash/mem/mhash"""
+    r = subprocess.run([TRACE], input="\n".join(lines) + "\n", capture_output=True, text=True, timeout=timeout)
+    out = []
+    for l in r.stdout.strip().split('\n'):
+        d = dict(kv.split('=') for kv in l.split() if '=' in kv)
+        out.append(d)
+    if len(out) != len(lines):
+        return None
+    return out
